@@ -55,3 +55,8 @@ package share
 //@   loop 1: invariant forall k int :: 0 <= k && k < len(idxs) ==> 0 <= idxs[k] && idxs[k] <= rangeindex && !outsideOf(namespace, root.RowRoots[idxs[k]])
 //@   loop 1: invariant forall k int, l int :: 0 <= k && k < l && l < len(idxs) ==> idxs[k] < idxs[l]
 //@   loop 1: invariant forall r int :: 0 <= r && r <= rangeindex && !outsideOf(namespace, root.RowRoots[r]) ==> (exists k int :: 0 <= k && k < len(idxs) && idxs[k] == r)
+
+// Whether a data hash is the hash of the empty block is a function of the hash (used in store contracts).
+//@ func (DataHash).IsEmptyEDS
+//@   property C07
+//@   pure
